@@ -9,6 +9,9 @@
 (*        names_master}                                                    *)
 (*      {e:"second", started: a second master on the same pid file came    *)
 (*        up instead of refusing}                                          *)
+(*      {e:"watch", after, partial: a reader that polled the path while a  *)
+(*        daemonised master was starting (or failing to start) saw it      *)
+(*        exist with something else than a complete pid record}            *)
 (***************************************************************************)
 EXTENDS Integers, Sequences, TLC, Json, IOUtils, TLCExt
 Traces == ndJsonDeserialize(IOEnv.TRACE_FILE)
@@ -22,6 +25,7 @@ V(e) ==
       ELSE IF e.master_alive /\ ~e.names_master THEN "PidFileNamesSomeoneElse"
       ELSE IF ~e.master_alive /\ e.exists /\ e.names_master THEN "PidFileLeftBehind"
       ELSE "ok")
+  ELSE IF e.e = "watch" THEN (IF e.partial THEN "PartialContentSeen" ELSE "ok")
   ELSE (IF e.started THEN "SecondMasterNotRefused" ELSE "ok")
 Init == tid \in 1..NT /\ l = 1 /\ verdict = "ok"
 Step == /\ verdict = "ok" /\ l <= Len(T.ev) /\ verdict' = V(T.ev[l]) /\ l' = l + 1 /\ UNCHANGED tid
